@@ -11,7 +11,7 @@ chunks); after every operation the driver records /proc/self/fd, the mappings of
 thread count and the listing of the sorter's temp directory; at quiescence a recoverable LeakSanitizer check. All judged
 by TLC against the ledger."""
 import os, re, json
-from .. import core, build, gen, shapes, mergerside as M
+from .. import mergerside as M, core, build, gen, shapes, mergerside as M
 
 LEVEL = "model_checking"
 
@@ -332,12 +332,46 @@ def compress_sweep(ctx, b):
             line, json.dumps(ex[line - 1])[:200], json.dumps(ex[line - 2])[:200] if line > 1 else ""), {"kind": "trace", "trace": ex, "line": line})
 
 
+def merged_values(ctx, b):
+    """what a merge function hands back is released whatever its length: mergers (plain, nested, over user sources) whose merged values
+    shrink and vanish (cancelling tokens: an allocated buffer of length 0 is a legal merged value), iterated, abandoned, destroyed"""
+    rng = ctx.rng
+    d = ctx.sub("merged")
+    tmp = os.path.join(d, "tmp")
+    os.makedirs(tmp, exist_ok=True)
+    out = []
+    for t in range(6 if ctx.quick() else 60):
+        fam = M.cancelling(M.rand_family(rng, nsrc=rng.choice([2, 3, 5]), nkeys=rng.choice([3, 6]), tokbase=1), rng)
+        variant = ["readers", "user", "nested", "mixed"][t % 4]
+        L = M.setup_lines(d, fam, variant, 1, 0)
+        L = [L[0], "clock 1000", "obs " + tmp] + L[1:]
+        L += ["it_iter 1 m:0", "it_drain 1", "it_destroy 1", "obs " + tmp, "it_iter 1 m:0", "it_next 1 2", "it_destroy 1", "obs " + tmp]
+        keys = sorted(set(k for src in fam for k, _ in src))
+        for k in keys[:4]:
+            L += [gen.open_line(1, "m:0", ("get", k, b"")), "it_drain 1", "it_destroy 1"]
+        L += M.teardown_lines(fam, variant) + ["obs " + tmp, "leakcheck", "---"]
+        evs, rc, err = core.run_drv(b, "\n".join(L) + "\n", d, "mv%d" % t, fork=True, timeout=300,
+                                    env={"ASAN_OPTIONS": "detect_leaks=1:exitcode=99:allocator_may_return_null=1", "LSAN_OPTIONS": "exitcode=0:print_suppressions=0"})
+        for ex in core.split_execs(core.convert_events(evs)):
+            ext = [e for e in ex if e["e"] == "Exit"]
+            if ext and (ext[0]["code"] != 0 or ext[0]["sig"] != 0):
+                core.report(ctx, "merger over shrinking merged values ended abnormally (code %s signal %s)" % (ext[0]["code"], ext[0]["sig"]),
+                            {"kind": "abnormal", "why": "code %s signal %s" % (ext[0]["code"], ext[0]["sig"]), "script": L})
+                continue
+            out += [ex[0], {"e": "Judge", "props": ["C18"]}] + ex[1:]
+            ctx.add("merged_value_histories", 1)
+    for ex, line in core.validate_batch(ctx, out, "merged"):
+        core.report(ctx, "resource ledger not explained at trace line %d (merged values): %s (previous call: %s)" % (
+            line, json.dumps(ex[line - 1])[:200], json.dumps(ex[line - 2])[:200] if line > 1 else ""), {"kind": "trace", "trace": ex, "line": line})
+
+
 def run(ctx):
     b = build.build("asan")
     rng = ctx.rng
     tlc_models(ctx)
     size_sweep(ctx, b)
     compress_sweep(ctx, b)
+    merged_values(ctx, b)
     inflight(ctx)
     hs = tlc_behaviours(ctx, 160 if ctx.quick() else 5000)
     hs += focused_histories(rng, 120 if ctx.quick() else 3000)
